@@ -33,28 +33,46 @@ class FragmentSpreadsMustNotFormCycles(June2018ReleaseValidationRule):
     RULE_LINK = "https://graphql.github.io/graphql-spec/June2018/#sec-Fragment-spreads-must-not-form-cycles"
     RULE_NUMBER = "5.5.2.2"
 
-    def _validate_fragment(self, fragments, fragment, spreaded):
-        for selected in fragment.selection_set.selections:
+    def _get_spread_names(self, selection_set):
+        names = []
+        if not selection_set:
+            return names
+
+        for selected in selection_set.selections:
             if isinstance(selected, FragmentSpreadNode):
-                if selected.name.value not in spreaded:
-                    spreaded.append(selected.name.value)
-
-                    fragment = find_nodes_by_name(
-                        fragments, selected.name.value
+                names.append(selected.name.value)
+            else:
+                names.extend(
+                    self._get_spread_names(
+                        getattr(selected, "selection_set", None)
                     )
-                    if not fragment:
-                        continue  # Handled by another validator
-                    fragment = fragment[0]
+                )
+        return names
 
-                    self._validate_fragment(fragments, fragment, spreaded)
-                else:
-                    raise CycleException(fragments, self._extensions)
-        return
+    def _validate_fragment(self, fragments, fragment, spreaded, visited):
+        for name in self._get_spread_names(fragment.selection_set):
+            if name in spreaded:
+                raise CycleException(fragments, self._extensions)
+
+            if name in visited:
+                continue  # Already explored and known to be acyclic
+
+            target = find_nodes_by_name(fragments, name)
+            if not target:
+                continue  # Handled by another validator
+
+            self._validate_fragment(
+                fragments, target[0], spreaded + [name], visited
+            )
+        visited.add(fragment.name.value)
 
     def validate(self, fragments, **_):
+        visited = set()
         for fragment in fragments:
             try:
-                self._validate_fragment(fragments, fragment, [])
+                self._validate_fragment(
+                    fragments, fragment, [fragment.name.value], visited
+                )
             except CycleException as e:
                 return e.tartiflette_errors
 
